@@ -836,3 +836,209 @@ def perturb(rng, lines, strength=0.2):
             out.append(rng.choice(["else:", "    else:", "elif x > 1:", "        except:", "  try:", "if x > 0:", "    while x < 2:", "def late():"]))
         out.append(l)
     return out
+
+
+# ------------------------------------------------------------------ fourth round: functions emitted in SEVERAL VARIANTS
+# A def is parsed once for its primary signature (unannotated parameters: int) and parsed AGAIN, from the lines
+# _parse_function keeps, for every other argument-type signature a call site in an assignment / return needs.  The
+# programs below define helpers whose bodies hold nested blocks (if / elif / else, for, while, try / except, two levels
+# deep, with value returns inside branches) and call them with 2-3 signatures (int, float, bool; one or two parameters)
+# from column 0, from inside a block and from the main loop - so that the firmware holds several variants of one def.
+VARIANT_ARGS = {"int": ["7", "0", "-3", "300"], "float": ["300.5", "12.5", "-0.5", "2.25"], "bool": ["True", "False"]}
+
+
+def _prelude_plain():
+    return [("imp", s) if s.startswith("from ") else ("chain", [("leaf", s, ("plain",))]) for s in PRELUDE]
+
+
+def _use_param(rng, nodes, p=0.5):
+    """some if / elif conditions test the parameter v instead of the global x"""
+    out = []
+    for n in nodes:
+        if n[0] == "leaf":
+            out.append(n)
+            continue
+        h = n[2]
+        if n[1] in ("if", "elif") and rng.random() < p:
+            h = h.replace(f"{M1}x{O1}", f"{M1}v{O1}", 1)
+        out.append(("block", n[1], h, _use_param(rng, n[3], p)))
+    return out
+
+
+def _add_returns(rng, cnt, nodes, p=0.45):
+    """a value return as the last statement of some if / elif / else / for / try bodies"""
+    out = []
+    for n in nodes:
+        if n[0] == "leaf":
+            out.append(n)
+            continue
+        body = _add_returns(rng, cnt, n[3], p)
+        if n[1] != "while" and rng.random() < p and not (body and body[-1][0] == "leaf" and body[-1][2][0] in ("jump", "continue")):
+            k = cnt.next()
+            body = body + [("leaf", f"return{M1}{k}", ("jump", f"return {k};"))]
+        out.append(("block", n[1], n[2], body))
+    return out
+
+
+def _variant_def(rng, cnt, name, params, maxdepth, callee=None):
+    for _ in range(50):
+        body = gen_body(rng, cnt, 1, maxdepth, in_func=True, n=rng.randint(2, 3))
+        if any(n[0] == "block" for n in body):
+            break
+    body = _add_returns(rng, cnt, _use_param(rng, body))
+    if callee and rng.random() < 0.7:
+        # calls in RETURN position: the variant of this function for a signature asks for the callee's variant of that signature
+        body = [("block", "if", f"if{M1}v{O1}>{O1}{cnt.next()}{O0}:", [("leaf", f"return{M1}{callee}({O0}v{O0})", ("jump", f"return {callee}(v);"))])] + body
+    body = body + [("leaf", f"return{M1}v", ("jump", "return v;"))]
+    if rng.random() < 0.25:
+        params = [params[0] + ": " + rng.choice(["float", "int"])] + params[1:]          # an annotated first parameter
+    return ("def", f"def{M1}{name}({O0}{(',' + O1).join(params)}{O0}){O0}:", body)
+
+
+def _call_leaf(rng, k, name, types):
+    args = [rng.choice(VARIANT_ARGS[t]) for t in types]
+    return ("leaf", f"r{k}{O1}={O1}{name}({O0}{(',' + O1).join(args)}{O0})", ("plain",))
+
+
+def _place_calls(rng, cnt, tops, calls, main_p=0.5):
+    """call sites at column 0, inside an if block at column 0, and in the main loop"""
+    in_main = []
+    for leaf in calls:
+        r = rng.random()
+        if r < 0.5:
+            tops.append(("chain", [leaf]))
+        elif r < 0.75:
+            tops.append(("chain", [("block", "if", f"if{M1}x{O1}<{O1}{cnt.next()}{O0}:", [leaf])]))
+        else:
+            in_main.append(leaf)
+    if in_main or rng.random() < main_p:
+        k = cnt.next()
+        tops.append(("main", f"while{M1}True{O0}:", in_main + [("leaf", f"mon.write({O0}{k}{O0})", ("mark", k))]))
+    return tops
+
+
+def gen_variant_program(rng, maxdepth=3):
+    cnt = Counter()
+    tops = _prelude_plain()
+    calls = []
+    k = 0
+    fn0_single = False
+    for i in range(rng.choice([1, 1, 2])):
+        name = f"fn{i}"
+        params = ["v"] if rng.random() < 0.65 else ["v", "w"]
+        tops.append(_variant_def(rng, cnt, name, params, maxdepth, callee=("fn0" if i == 1 and fn0_single else None)))
+        if i == 0:
+            fn0_single = len(params) == 1
+        sigs = set()
+        for _ in range(rng.choice([2, 2, 3])):
+            sigs.add(tuple(rng.choice(["int", "float", "float", "bool"]) for _ in params))
+        if len(sigs) < 2:
+            sigs.add(tuple("float" if t != "float" else "int" for t in next(iter(sigs))))
+        for sg in sorted(sigs, key=lambda s: rng.random()):
+            k += 1
+            calls.append(_call_leaf(rng, k, name, sg))
+    for _ in range(rng.randint(0, 2)):
+        tops.append(("chain", gen_stmt(rng, cnt, 0, 2)))
+    return _place_calls(rng, cnt, tops, calls)
+
+
+def systematic_variant_programs():
+    """one helper per shape of nested body (if/elif/else with returns, for, while, try/except, two levels) x the sets of
+    signatures {float only, int + float, float + int (other order), bool + int + float}"""
+    import random
+    rng = random.Random(7)
+    cnt = Counter()
+
+    def W():
+        k = cnt.next()
+        return ("leaf", f"mon.write({O0}{k}{O0})", ("mark", k))
+
+    def R():
+        k = cnt.next()
+        return ("leaf", f"return{M1}{k}", ("jump", f"return {k};"))
+
+    def IF(v, body):
+        return ("block", "if", f"if{M1}{v}{O1}>{O1}{cnt.next()}{O0}:", body)
+
+    def ELIF(v, body):
+        return ("block", "elif", f"elif{M1}{v}{O1}<{O1}{cnt.next()}{O0}:", body)
+
+    def ELSE(body):
+        return ("block", "else", f"else{O0}:", body)
+
+    def FOR(body, var="i1"):
+        return ("block", "for", f"for{M1}{var}{M1}in{M1}range({O0}2{O0}){O0}:", body)
+
+    def WHILE(body):
+        return ("block", "while", f"while{M1}x{O1}<{O1}{cnt.next()}{O0}:", body + [("leaf", f"x{O1}+={O1}1", ("plain",))])
+
+    def TRY(body, hbody):
+        return [("block", "try", f"try{O0}:", body), ("block", "except", f"except{M1}Exception{O0}:", hbody)]
+
+    shapes = [
+        lambda: [IF("v", [W(), R()]), ELIF("v", [("leaf", "led.off()", ("plain",)), R()]), FOR([("leaf", "led.toggle()", ("plain",))])],
+        lambda: [IF("v", [W(), R()]), ELIF("v", [W()]), ELSE([W(), R()]), W()],
+        lambda: [FOR([W(), IF("v", [W(), ("leaf", "break", ("jump", "break;"))]), W()]), W()],
+        lambda: [WHILE([W(), IF("x", [("leaf", "continue", ("continue", "loop"))]), W()]), W()],
+        lambda: TRY([W(), IF("v", [R()])], [W(), R()]) + [W()],
+        lambda: [IF("v", [FOR([W()] + TRY([W()], [W()]), var="i2"), R()]), ELSE([WHILE([W()])]), W()],
+        lambda: [IF("v", [("leaf", "pass", ("allowed", "pass"))]), ELIF("v", [W()]), ELSE([("leaf", "pass", ("allowed", "pass"))]), W()],
+        lambda: [FOR([FOR([IF("v", [W()]), ELSE([W()])], var="i2")]), W()],
+    ]
+    sigsets = [[("float",)], [("int",), ("float",)], [("float",), ("int",)], [("bool",), ("int",), ("float",)]]
+    progs = []
+    for si, shape in enumerate(shapes):
+        sg = sigsets[si % len(sigsets)]
+        tops = _prelude_plain()
+        body = shape() + [("leaf", f"return{M1}v", ("jump", "return v;"))]
+        tops.append(("def", f"def{M1}fn0({O0}v{O0}){O0}:", body))
+        calls = [_call_leaf(rng, j + 1, "fn0", s) for j, s in enumerate(sg)]
+        progs.append(_place_calls(rng, cnt, tops, calls))
+    return progs
+
+
+def variant_defs(tops):
+    """names of the defs a variant program calls with arguments"""
+    return sorted({m.group(1) for t, meta, _ in leaves(tops) for m in [re.match(r"^r\d+ = (fn\d+)\(.+\)$", canon_spacing(t))] if m})
+
+
+# ------------------------------------------------------------------ fourth round: AFTER THE MAIN LOOP
+# every kind of top-level construct, written at column 0 behind the block of the main loop (Python never reaches it):
+# (name, lines, class) - class "statement": the script must be REJECTED; "fixed": a line of the fixed set (import, pass,
+# print, docstring, global, target()) - rejected, or accepted with unchanged firmware; "junk": blank / comment lines -
+# accepted with unchanged firmware
+AFTER_LOOP = [
+    ("second_main_loop", ["while True:", "    mon.write(9001)"], "statement"),
+    ("second_main_loop_comment", ["while True:  # alarm mode", "    led.toggle()", "    sleep(100)"], "statement"),
+    ("second_main_loop_pass", ["while True:", "    pass"], "statement"),
+    ("def", ["def late():", "    mon.write(9002)"], "statement"),
+    ("def_params", ["def late2(a, b):", "    return a"], "statement"),
+    ("def_pass", ["def late3():", "    pass"], "statement"),
+    ("if", ["if x > 1:", "    mon.write(9003)"], "statement"),
+    ("if_else", ["if x > 1:", "    mon.write(9004)", "else:", "    mon.write(9005)"], "statement"),
+    ("for", ["for k9 in range(3):", "    mon.write(9006)"], "statement"),
+    ("while_cond", ["while x < 3:", "    x += 1"], "statement"),
+    ("try", ["try:", "    mon.write(9007)", "except Exception:", "    mon.write(9008)"], "statement"),
+    ("device_call", ["led.on()"], "statement"),
+    ("serial_write", ["mon.write(9009)"], "statement"),
+    ("assign", ["x = 9010"], "statement"),
+    ("augassign", ["x += 1"], "statement"),
+    ("sleep", ["sleep(9011)"], "statement"),
+    ("call", ["late()"], "statement"),
+    ("device_decl", ["led2 = Led(12)"], "statement"),
+    ("break", ["break"], "statement"),
+    ("continue", ["continue"], "statement"),
+    ("return", ["return"], "statement"),
+    ("import", ["import os"], "fixed"),
+    ("from_import", ["from math import sin"], "fixed"),
+    ("from_import_reduino", ["from Reduino.Actuators import Servo"], "fixed"),
+    ("target", ["target(\"COM3\")"], "fixed"),
+    ("pass", ["pass"], "fixed"),
+    ("print", ["print(\"bye\")"], "fixed"),
+    ("docstring", ["\"\"\"the end\"\"\""], "fixed"),
+    ("global", ["global x"], "fixed"),
+    ("comment", ["# the end"], "junk"),
+    ("comment_indented", ["    # still nothing", "\t# tab"], "junk"),
+    ("comment_code", ["# while True:", "#     led.on()"], "junk"),
+    ("blank", ["", "   ", "\t"], "junk"),
+]
